@@ -800,9 +800,11 @@ def small_spellings(S, R):
     uri = S.namespaces[0][0]
     pfx = R.prefixes[0]
     out = []
-    for name in ("T0", "T1", "op0", "op1"):
+    for name in ("T0", "T1"):
         for sp in (Sp(("plain", name)), Sp(("prefixed", pfx, name)), Sp(("braced", uri, name))):
             out.append((sp.text(), sp, "scope-global"))
+    for name in ("op0", "op1"):
+        out.append((name, Sp(("plain", name)), "scope-global"))
     for t in S.types:
         for p, _ in S.flat(t):
             sp = Sp(("plain", t.name), [(None, False, p.name)])
@@ -965,8 +967,16 @@ def run(ck):
         "anonymous complex types (local and global elements with an inline complexType, also extending a named "
         "type) are generated; abstractly they are types in a namespace no spelling can name, called like their "
         "element (which is the class name suds gives the object)",
-        "not modelled / not generated: ElementQuery's deep search (a local element name spelled without its path), "
-        "simpleContent/mixed types, element refs, Factory.separator, names containing '.'",
+        "element refs (a member taking name, namespace and type of a global element), simpleContent types (a Property: "
+        "'value' then the attributes), ElementQuery's deep search (a local element name spelled without its path: "
+        "found only directly in the first container of a non-derived type of schema.all; the order of schema.all is "
+        "read from the loaded client), named groups referenced once and choices with compound branches are "
+        "generated and modelled",
+        "bridge to C01: filled_object_vs_dict is stated over the object the C03 model builds and the marshaller model "
+        "of coq/C01/Marshal.v (imported read-only)",
+        "not modelled / not generated: the deep search THROUGH a named group definition (names of elements declared "
+        "in groups are never spelled without a path), simpleContent over a user type, Factory.separator, names "
+        "containing '.'",
     ]
     # suds reports every failed look-up through logging.error: keep the output readable
     lg = logging.getLogger("suds")
@@ -976,7 +986,7 @@ def run(ck):
     proof_ok = ck.prove(THEOREMS) if THEOREMS else None
 
     thorough = ck.tier != "quick"
-    n_schemas = int(os.environ.get("VERIF_C03_RANDOM", "0")) or (36 if not thorough else 400)   # env: development aid
+    n_schemas = int(os.environ.get("VERIF_C03_RANDOM", "0")) or (32 if not thorough else 400)   # env: development aid
     batch = 12
     rng = ck.rng
     unproved = []
@@ -1240,17 +1250,17 @@ def run(ck):
                              "equivalent dict (%s)" % m["operation"],
                              dict(m, wsdl=m["wsdl"].decode("utf-8")))
 
-    ck.rule = ("generated interfaces (family.gen_schema: 1-3 namespaces, nested sequence/choice/all, extension "
+    ck.rule = (("thorough: " + SCOPE + "; plus " if thorough else "") + "generated interfaces (family.gen_schema: 1-3 namespaces, nested sequence/choice/all, extension "
                "chains, attributes with defaults, occurs/nillable) extended with recursive and forward type "
                "references, enumerations and other simple types, wildcards, empty and attribute-only types, anonymous "
                "complex types on local and global elements, numeric/explicit occurrence bounds, schema blocks in rotated "
-               "order, fixed shapes in every interface (Drawing{seg: Segment{start: Point, end: Point}, shape: Shape{id, "
-               "choice, label, @unit}}, Order{customer: Customer{address: Address{.., @kind}}}), the same "
+               "order, element refs, simpleContent types, named groups, fixed shapes in every interface (Drawing{seg: Segment{start: Point, end: Point}, shape: Shape{id, "
+               "choice with simple and compound (sequence / all / group) branches, label, @unit}}, Order{customer: Customer{address: Address{.., @kind}}}), the same "
                "member name in unrelated types, global elements of built-in/simple/complex type in every namespace "
                "(one called like a type), two prefixes per namespace; x every global type/element in every root "
                "form (plain / each prefix / {uri}) x every member by dotted path (depth 1 exhaustively, random "
                "walks to depth 4, @attributes; paths of 3-4 parts through members typed by reference to named types, also "
-               "ending in @attr, in every root form for the fixed shapes) x unknown names of every form (bogus local name, wrong namespace, "
+               "ending in @attr, in every root form for the fixed shapes) x local element names spelled without their path (deep search) x unknown names of every form (bogus local name, wrong namespace, "
                "unknown URI, undeclared prefix, bogus/misplaced member, wrong case) x malformed strings; "
                "PathResolver.split on random strings over '{}.:@aB\\n'; qualify on the same; three filled-object (one "
                "branch of each choice set) vs schema-ordered dict requests per operation.  distinct = (interface, string); non-trivial = not a TypeNotFound for "
